@@ -1,7 +1,7 @@
 (** C04 - canonical form: equal contents always produce the identical root.
     Statements only; proofs are in Inv.v / Hist.v / Build.v. *)
 From Coq Require Import List NArith ZArith Bool.
-From Mast Require Import Reload WorldInv Prim Key Tree KeyOrder Codec Store Diff World Erase Build Spec Canon Level Inv Hist Merkle MerkleHist HeightFun.
+From Mast Require Import Reload WorldInv Prim Key Tree KeyOrder Codec Store Diff World Erase Build Spec Canon Level Inv Hist Merkle MerkleHist HeightFun SpecLaws.
 Import ListNotations.
 
 Section GENERIC.
@@ -34,6 +34,19 @@ Theorem C04_unique : forall bf m1 m2 l, canon K V cmp layer bf m1 l -> canon K V
   exists n1 n2, root_n K V (m_root K V m1) = Some n1 /\ root_n K V (m_root K V m2) = Some n2 /\
                 erase_n K V n1 = erase_n K V n2.
 Proof. exact (canon_unique K V cmp layer). Qed.
+
+(** "equal contents" taken extensionally: two trees under which every key reads the same (the same
+    value or none - by C01_get that is what Get returns) hold the same listing, hence have the same
+    height, size and shape; no assumption that the listings were built the same way *)
+Theorem C04_unique_extensional :
+  (forall a b, cmp a b = Eq <-> a = b) -> (forall a b, cmp b a = CompOpp (cmp a b)) ->
+  (forall a b c, cmp a b = Lt -> cmp b c = Lt -> cmp a c = Lt) ->
+  forall bf m1 m2 l1 l2, canon K V cmp layer bf m1 l1 -> canon K V cmp layer bf m2 l2 ->
+  (forall k, lookup K V cmp k l1 = lookup K V cmp k l2) ->
+  l1 = l2 /\ m_height K V m1 = m_height K V m2 /\ m_size K V m1 = m_size K V m2 /\
+  exists n1 n2, root_n K V (m_root K V m1) = Some n1 /\ root_n K V (m_root K V m2) = Some n2 /\
+                erase_n K V n1 = erase_n K V n2.
+Proof. exact (canon_unique_ext K V cmp layer). Qed.
 End GENERIC.
 
 (** Any two supported histories (inserts, updates, deletes down to any size, clones, persists, in any
@@ -145,3 +158,4 @@ Print Assumptions C04_identical_root.
 Print Assumptions C04_reachable_stores_content_addressed.
 Print Assumptions C04_identical_root_in_histories.
 Print Assumptions C04_height_is_a_function_of_contents.
+Print Assumptions C04_unique_extensional.
